@@ -173,6 +173,10 @@ pub open spec fn lowb(s: Seq<char>) -> Seq<u8> { Seq::new(s.len(), |i: int| s[i]
 // TRUSTED: documented behaviour of char::is_ascii_alphabetic ("U+0041 'A' ..= U+005A 'Z', or U+0061 'a' ..= U+007A 'z'")
 pub assume_specification[ char::is_ascii_alphabetic ](c: &char) -> (r: bool)
     ensures r == (('A' <= *c && *c <= 'Z') || ('a' <= *c && *c <= 'z'));
+// TRUSTED: char::is_alphabetic (Unicode `Alphabetic` property): on ASCII it is is_ascii_alphabetic; nothing is said about other chars, so a
+// scanner that uses it where the code should use the ASCII test is decided (and fails) instead of being rejected as an unknown method
+pub assume_specification[ char::is_alphabetic ](c: char) -> (r: bool)
+    ensures is_ascii_c(c) ==> r == (('A' <= c && c <= 'Z') || ('a' <= c && c <= 'z'));
 // TRUSTED: documented behaviour of char::is_ascii_digit ("U+0030 '0' ..= U+0039 '9'")
 pub assume_specification[ char::is_ascii_digit ](c: &char) -> (r: bool)
     ensures r == ('0' <= *c && *c <= '9');
